@@ -174,3 +174,107 @@ func TestC28_AdversarialSiblings(t *testing.T) {
 		t.Errorf("INCONCLUSIVE: the birthday search found no colliding sibling names (%d parents x %d candidates)", parents, candidates)
 	}
 }
+
+// rawTag is the first candidate of the documented tag function: the 29 low bits of the FNV-1 hash,
+// before any "_" is appended.
+func rawTag(s string) uint32 {
+	h := uint32(2166136261)
+	for i := 0; i < len(s); i++ {
+		h *= 16777619
+		h ^= uint32(s[i])
+	}
+	return h & 0x1fffffff
+}
+
+// TestC28_AdversarialReserved plants leaves whose schema path hashes into one of the two ranges the
+// tag function must avoid (1..1000 and the protobuf-reserved 19000..19999), i.e. the rare paths
+// that take the re-hash branch (about 4 in a million names), and checks the numbers in the output.
+func TestC28_AdversarialReserved(t *testing.T) {
+	rec := ev.Start(t, "C28")
+	rec.Rule(c28Rule)
+	registerC28Witnesses(rec, t)
+	root := scratch(t, "c28res")
+	r := &splitmix{s: ev.Seed() ^ 0x5bd1e995}
+	parents := ev.Scale(2, 5)
+	candidates := ev.Scale(3000000, 8000000)
+	found := 0
+	for pi := 0; pi < parents; pi++ {
+		mod, cont := "res-"+yangIdent(r), yangIdent(r)
+		parent := "/" + mod + "/" + cont
+		var low, high []string
+		seen := map[string]bool{}
+		for i := 0; i < candidates && len(low)+len(high) < 6; i++ {
+			n := yangIdent(r)
+			if seen[protoName(n)] {
+				continue
+			}
+			switch v := rawTag(parent + "/" + n); {
+			case v >= 1 && v <= 1000 && len(low) < 3:
+				low = append(low, n)
+				seen[protoName(n)] = true
+			case v >= 19000 && v <= 19999 && len(high) < 3:
+				high = append(high, n)
+				seen[protoName(n)] = true
+			}
+		}
+		planted := append(append([]string{}, low...), high...)
+		found += len(planted)
+		if len(planted) == 0 {
+			continue
+		}
+		var b strings.Builder
+		fmt.Fprintf(&b, "module %s {\n  namespace \"urn:verif:res:%s\"; prefix a;\n  container %s {\n", mod, mod, cont)
+		leaves := append([]string{"filler-one", "filler-two", "filler-three"}, planted...)
+		sort.Strings(leaves)
+		for _, l := range leaves {
+			fmt.Fprintf(&b, "    leaf %s { type string; }\n", l)
+		}
+		b.WriteString("  }\n}\n")
+		dir := subdir(t, root, "res")
+		file := filepath.Join(dir, mod+".yang")
+		if err := os.WriteFile(file, []byte(b.String()), 0o644); err != nil {
+			t.Fatalf("HARNESS-BUG: %v", err)
+		}
+		src := schemaSrc{Label: "adversarial-reserved:" + parent, Kind: "adversarial", Dir: dir, Roots: []string{file}}
+		f := defaultProtoFlags()
+		f.FakeRoot = pi%2 == 1
+		key := fmt.Sprintf("res|%s|%v|%v", parent, planted, f.FakeRoot)
+		po, log, err := runProtoGen(t, root, src, f)
+		os.RemoveAll(dir)
+		classes := []string{"src:adversarial", "adversarial-reserved-range"}
+		if len(low) > 0 {
+			classes = append(classes, "raw-tag-in-1..1000")
+		}
+		if len(high) > 0 {
+			classes = append(classes, "raw-tag-in-19000..19999")
+		}
+		if err != nil {
+			rec.Case(key, true, append(classes, "gen-error")...)
+			t.Errorf("C28 violated: proto_generator fails on a schema whose only peculiarity is a leaf path hashing into an avoided range %v under %s:\n%s", planted, parent, tail(log, 1500))
+			continue
+		}
+		probs, st := checkWellFormed(po, f)
+		rec.Case(key, st.MaxFields >= 5 || st.HasOneof, classes...)
+		if rec.WantSample() {
+			rec.Sample(map[string]interface{}{"source": src.Label, "planted": planted, "raw_tags": func() (o []uint32) {
+				for _, n := range planted {
+					o = append(o, rawTag(parent+"/"+n))
+				}
+				return
+			}()})
+		}
+		if len(probs) > 0 {
+			var pb strings.Builder
+			for _, pr := range probs {
+				fmt.Fprintf(&pb, "  - %s\n", pr)
+			}
+			msg := fmt.Sprintf("leaves %v under %s (raw 29-bit FNV tags in an avoided range):\n%scommand: %s\nYANG:\n%s\n%s", planted, parent, pb.String(), po.Cmd, indent(b.String()), dumpOutput(po, 4000))
+			rec.Violation(map[string]interface{}{"parent": parent, "planted": planted, "yang": b.String(), "message": tail(msg, 6000)})
+			t.Errorf("C28 violated: generated message is not well-formed:\n%s", msg)
+		}
+	}
+	rec.Add("adversarial_reserved_names_found", int64(found))
+	if found == 0 {
+		t.Errorf("INCONCLUSIVE: no name hashing into an avoided range found (%d parents x %d candidates)", parents, candidates)
+	}
+}
